@@ -80,6 +80,7 @@ type fieldMode struct {
 	NeverClosed bool // the channel the field holds is never closed
 	Frozen bool // frozen_contents: the contents of the map the field holds are written only before the object is shared
 	Contents string // additionally guarded_contents(<lock>): the contents of the map the field holds are guarded
+	Others bool // annotation comes from `fields T <mode>: others` (write obligations only; no frame axiom is assumed from it)
 }
 
 type funcRun struct {
@@ -377,6 +378,7 @@ func (c *Ctx) addSpecFile(sf *SpecFile, p *packages.Package) error {
 			}
 			c.dispatch[p.PkgPath+"."+d[0]] = t
 		}
+		var othersOf []othersAnno
 		for _, fa := range sf.Fields {
 			obj := p.Types.Scope().Lookup(fa.Struct)
 			if obj == nil {
@@ -387,6 +389,13 @@ func (c *Ctx) addSpecFile(sf *SpecFile, p *packages.Package) error {
 				return fmt.Errorf("CONTRACT-ERROR %s: %q is not a struct", sf.Path, fa.Struct)
 			}
 			for _, fn := range fa.Fields {
+				if fn == "others" {
+					// `fields T immutable: others`: every field of T that carries no annotation of its
+					// own - including fields added to the struct later - is covered (expanded below,
+					// after all explicit annotations of the file are known)
+					othersOf = append(othersOf, othersAnno{fa: fa, typ: obj.Type(), st: st})
+					continue
+				}
 				found := false
 				for i := 0; i < st.NumFields(); i++ {
 					if st.Field(i).Name() == fn {
@@ -429,6 +438,31 @@ func (c *Ctx) addSpecFile(sf *SpecFile, p *packages.Package) error {
 				}
 			}
 		}
+		for _, oa := range othersOf {
+			for i := 0; i < oa.st.NumFields(); i++ {
+				k := c.Reg.TypeKey(oa.typ) + "|" + oa.st.Field(i).Name()
+				if fm := c.FieldAnnos[k]; fm != nil && fm.Mode != "" {
+					continue
+				}
+				fm := c.FieldAnnos[k]
+				if fm == nil {
+					fm = &fieldMode{}
+					c.FieldAnnos[k] = fm
+				}
+				fm.Mode = oa.fa.Mode
+				fm.Arg = oa.fa.Arg
+				fm.Others = true
+				if mt, ok := oa.st.Field(i).Type().Underlying().(*types.Map); ok && oa.fa.Mode == "immutable" {
+					// the contents of a map held by such a field are written only while the object is being built
+					fm.Frozen = true
+					if c.fieldMapTypes == nil {
+						c.fieldMapTypes = map[string]*types.Map{}
+					}
+					c.fieldMapTypes[k] = mt
+				}
+			}
+		}
+		othersOf = nil
 		for _, ci := range sf.ChanInvs {
 			obj := p.Types.Scope().Lookup(ci.Struct)
 			if obj == nil {
@@ -510,6 +544,12 @@ func (c *Ctx) Fork(intBV bool) *Ctx {
 		n.FieldAnnos[k] = v
 	}
 	return &n
+}
+
+type othersAnno struct {
+	fa  *FieldAnno
+	typ types.Type
+	st  *types.Struct
 }
 
 // baseContract resolves `opt implements iface [pkg.]Iface.Method` / `opt implements field T.f`:
